@@ -76,7 +76,29 @@ func (mo *mon) concurrentCase(r *rand.Rand) {
 			decoded[g] = direct(models[g])
 		}
 	}
-	c.Sample(map[string]any{"kind": "concurrent", "hash": mo.hh.String(), "goroutines": concGoroutines, "hashes_per_goroutine": reps, "values": models})
+	// one more value that all goroutines hash, whole and through views of its
+	// arrays (unsorted, so that any in-place reordering is visible)
+	sharedM := concModel(r, concGoroutines)
+	for len(sharedM.Feats) < 4 {
+		sharedM.Feats = append(sharedM.Feats, txt(r, feats))
+	}
+	sharedM.Feats = shuffled(r, sharedM.Feats)
+	sharedM.Idents = shuffled(r, sharedM.Idents)
+	sharedV := direct(sharedM)
+	views, viewMs, viewNames := subViews(r, sharedV, sharedM)
+	views, viewMs, viewNames = append(views, sharedV), append(viewMs, sharedM), append(viewNames, "the whole value")
+	viewWant := make([]string, len(views))
+	for k := range views {
+		viewWant[k] = refHash(viewMs[k], mo.ref())
+		if h, alive := mo.hashOf(direct(viewMs[k].clone()), tcase{Hash: mo.hh.String(), Route: "direct", Arrangement: "private copy of the shared view " + viewNames[k], Value: viewMs[k]}); !alive {
+			return
+		} else if h != viewWant[k] {
+			mo.violate("caps:ref", "%s: Hash = %q, XEP-0115 5.1 gives %q for S = %q; value %+v", mo.hh, h, viewWant[k], refString(viewMs[k]), viewMs[k])
+			return
+		}
+	}
+	sharedHashes := make([]int, concGoroutines)
+	c.Sample(map[string]any{"kind": "concurrent", "shared_value": sharedM, "hash": mo.hh.String(), "goroutines": concGoroutines, "hashes_per_goroutine": reps, "values": models})
 	c.Count("concurrent_cases", 1)
 	if runtime.GOMAXPROCS(0) >= 4 {
 		c.Count("concurrent_cases_with_gomaxprocs_ge_4", 1)
@@ -115,7 +137,17 @@ func (mo *mon) concurrentCase(r *rand.Rand) {
 			defer atomic.AddInt32(&active, -1)
 			for rep := 0; rep < reps; rep++ {
 				var got string
-				switch rep % 3 {
+				switch rep % 5 {
+				case 3, 4:
+					k := (rep/5 + g) % len(views)
+					if rep%5 == 3 {
+						k = len(views) - 1
+					}
+					got = views[k].Hash(mo.hh.New())
+					sharedHashes[g]++
+					if got != viewWant[k] {
+						add("caps:concurrent:shared", "goroutine %d, hash %d: Hash = %q on %s of the value all goroutines share, XEP-0115 5.1 gives %q; shared value %+v", g, rep, got, viewNames[k], viewWant[k], sharedM)
+					}
 				case 0:
 					got = direct(models[g]).Hash(mo.hh.New())
 					if got != want[g] {
@@ -146,6 +178,16 @@ func (mo *mon) concurrentCase(r *rand.Rand) {
 		total += done[g]
 	}
 	c.Count("concurrent_hashes", total)
+	nshared := 0
+	for g := range sharedHashes {
+		nshared += sharedHashes[g]
+	}
+	c.Count("concurrent_shared_value_hashes", nshared/2)
+	c.Count("concurrent_shared_view_hashes", nshared-nshared/2)
+	c.Count("caller_visible_rechecks", 1)
+	if list := callerVisible(sharedV, sharedM); list != "" {
+		mo.violate("caps:caller:"+list+"-changed", "%s: after %d concurrent hashes of the shared value and its views the caller's %s changed: built as %+v, now reads %+v", mo.hh, nshared, list, sharedM, extract(sharedV))
+	}
 	if atomic.LoadInt32(&maxAct) >= 2 {
 		c.Count("concurrent_cases_with_overlapping_goroutines", 1)
 	}
